@@ -592,6 +592,112 @@ func (c *kase) clauses(o *obs, fail func(class, what string)) {
 			fail(cls, fmt.Sprintf("%q: no HTTP-port server without a user route for it redirects to a served port %v (effective: %s)", name, keys(right), c.effTable(o)))
 		}
 	}
+	// ---- (c'') the same clause on what REAL plain-HTTP requests get (Server.ServeHTTP on the
+	// provisioned servers: compiled routes, real host/protocol matchers, real static_response)
+	for _, t := range httpSrvs {
+		for i, tok := range t.served {
+			if strings.HasPrefix(tok, "?") || tok == "panic" {
+				fail("redirect:unexpected-response", fmt.Sprintf("server %s answers probe %d with %s (neither a user route, nor the 308/Location/Connection: close redirect, nor the empty handler)", t.name, i, tok))
+			}
+		}
+	}
+	for d := 1; d < len(c.names) && !c.hasReserved(); d++ {
+		name := c.names[d].s
+		if !probeable(name) {
+			continue
+		}
+		right := map[int]bool{}
+		any := false
+		for si := range c.servers {
+			s := &c.servers[si]
+			if !c.active(s) || s.disableRedir {
+				continue
+			}
+			// the server serves d if it names it, or names a pattern that matches it
+			serves := false
+			for _, q := range s.domainSet() {
+				if q == d || hostMatches(name, c.names[q].s) {
+					serves = true
+				}
+			}
+			if !serves {
+				continue
+			}
+			if contains(s.domainSet(), d) {
+				any = true
+			}
+			for _, a := range s.listen {
+				right[c.portRule(a.sp)] = true
+			}
+		}
+		if !any || len(httpSrvs) == 0 {
+			continue
+		}
+		anyUser, anyRight, shadowed := false, false, false
+		for _, t := range httpSrvs {
+			if d >= len(t.served) {
+				continue
+			}
+			tok := t.served[d]
+			if strings.HasPrefix(tok, "u") {
+				anyUser = true
+				continue
+			}
+			p, isRedir := -1, false
+			if strings.HasPrefix(tok, "r") {
+				if n, ok := nat(tok[1:]); ok {
+					p, isRedir = n, true
+				}
+			}
+			if isRedir && right[p] {
+				anyRight = true
+				continue
+			}
+			// the redirect routes of t that really match a request for d
+			matchRight, matchHostSpecific := false, false
+			for _, r := range t.routes {
+				if !r.redir {
+					continue
+				}
+				m := !r.hasHost
+				for _, h := range r.hosts {
+					if hostMatches(name, h) {
+						m = true
+						matchHostSpecific = true
+					}
+				}
+				if m && right[r.port] {
+					matchRight = true
+				}
+			}
+			if matchRight {
+				shadowed = true
+			}
+			if isRedir && matchHostSpecific {
+				cls := "redirect:request-redirected-to-unserved-port"
+				if matchRight {
+					cls = "redirect:right-redirect-shadowed-by-route-order"
+				}
+				fail(cls, fmt.Sprintf("a plain HTTP request for %q to server %s is redirected to port %d; served ports (after the port rule): %v", name, t.name, p, keys(right)))
+			}
+		}
+		if !anyRight && !anyUser {
+			cls := "redirect:request-not-redirected-to-served-port"
+			switch {
+			case shadowed:
+				cls = "redirect:right-redirect-shadowed-by-route-order"
+			case len(o.certs) == 0 && c.existingReceiverHasOnlyCatchAll(o, httpSrvs):
+				cls = "redirect:names-dropped-when-no-name-has-managed-certificates"
+			}
+			var toks []string
+			for _, t := range httpSrvs {
+				if d < len(t.served) {
+					toks = append(toks, t.name+":"+t.served[d])
+				}
+			}
+			fail(cls, fmt.Sprintf("a plain HTTP request for %q is answered %v by the HTTP-port servers: by no user route and by no redirect to a served port %v", name, toks, keys(right)))
+		}
+	}
 	// ---- (c') every interface a name is served on at the HTTPS port gets its redirect listener:
 	// when no configured server listens on the HTTP port of that network, the generated
 	// redirect server must listen on exactly that interface's HTTP port and redirect the name
